@@ -213,6 +213,13 @@ class CodecImpl:
                 b.seek(0)
                 n = P.push_ack_frame(b, self.make_rangeset(_ranges(t[1])), int(t[2]))
                 return f"ok n={n} {_hx(b.data)}"
+            if op == "codec.ack_pushm":
+                b = Buffer(capacity=int(t[3]))
+                b.push_bytes(bytes(int(t[3])))
+                b.seek(0)
+                n = P.push_ack_frame(b, self.make_rangeset(_ranges(t[1])), int(t[2]),
+                                     None if t[4] == "none" else int(t[4]))
+                return f"ok n={n} {_hx(b.data)}"
             if op == "codec.pn":
                 return f"ok {P.decode_packet_number(int(t[1]), int(t[2]), int(t[3]))}"
             if op == "codec.header":
